@@ -28,6 +28,25 @@ fn main() {
         let u = s.universe();
         ctx.run_slice(Slice::new(format!("subgraphs[{}]", s.name()), u.count(), |i, loc| check_subgraphs::<B>(&u.get_open(i), loc)));
     }
+    // sub-hypergraphs of structured larger hosts, and unary hosts with three hyperedges
+    let kq = if quick { 3 } else { 4 };
+    let st = ohmc::props::structured::shapes(kq);
+    ctx.run_slice(Slice::new(format!("subgraphs-of-structured-hosts[sizes 1..{}: {} hosts]", kq, st.len()), st.len() as u64, |i, loc| check_subgraphs::<B>(&st[i as usize].1, loc)).heavy());
+    let s3 = Spec { e_min: 3, ..Spec::hyper(3, 3, 1, 1, 1) };
+    let u3 = s3.universe();
+    ctx.run_slice(Slice::new(format!("subgraphs[{}]", s3.name()), u3.count(), |i, loc| check_subgraphs::<B>(&u3.get_open(i), loc)));
+    // discrete hosts with up to 12 nodes: every map of <=2 nodes into them (injectivity test at larger codomains)
+    ctx.run_slice(Slice::new("monomorphisms-into-larger-hosts[<=2 nodes into <=12]", 13, |i, loc| {
+        let n = i as usize;
+        let h = ohmc_core::plain::POpen::<u8, u8> { nodes: vec![0; n], edges: vec![], s: vec![], t: vec![] };
+        for gn in 0..=2usize {
+            let g = ohmc_core::plain::POpen::<u8, u8> { nodes: vec![0; gn], edges: vec![], s: vec![], t: vec![] };
+            for w in ohmc_core::uni::tables(gn, n) {
+                loc.more_cases(1);
+                check_arrow::<B>(&g, &h, (&w, n), (&[], 0), loc);
+            }
+        }
+    }).heavy());
     let meta = Meta {
         rule: "all pairs (G, H) of the listed universes with ALL maps w, x between their node and edge sets (natural or not); on a smaller universe also all maps whose domain or codomain is off by one (mistyped); a slice of 3-node / 2-edge hypergraphs where arities can shift between edges; for convexity every sub-hypergraph (edge subset x node superset of its incidences) of every hypergraph with the sorted and the reversed inclusion; acceptance must coincide with the definition, a rejection must name a condition that is really false, is_monomorphism and is_convex_subgraph are compared on every accepted arrow; both build profiles".into(),
         bounds: "G, H: <=2 nodes, <=1-2 hyperedges, arity <=2, 2 node labels, 1-2 edge labels; convexity: <=3 nodes, <=2-3 hyperedges (thorough: 4 nodes, up to 4 unary hyperedges)".into(),
